@@ -246,11 +246,39 @@ def build_adapter(desc, rng):
     return GymTwin(GymWrapper(mgr), sim)
 
 
+def build_example(desc, rng):
+    """A packaged example simulation (as harness/gen_C02.py builds them) under a real manager."""
+    from . import gen_C02
+    ex, mk, seed = desc
+    name, builder, mgrs, _ = gen_C02.EXAMPLES[ex]
+    sim = builder(random.Random(seed))
+    for attr in ("_states", "_observers", "_dones"):          # see build_grid
+        if isinstance(getattr(sim, attr, None), set):
+            setattr(sim, attr, sorted(getattr(sim, attr), key=lambda c: type(c).__name__))
+
+    def probe():
+        vit = []
+        for a in sim.agents.values():
+            pos = getattr(a, "_position", getattr(a, "position", None))
+            vit.append([pos.tolist() if hasattr(pos, "tolist") else pos,
+                        getattr(a, "_health", None), bool(getattr(a, "active", True)),
+                        getattr(a, "_ammo", None), getattr(a, "_orientation", None)])
+        cells = []
+        g = getattr(sim, "grid", None)
+        if g is not None and g._internal[0, 0] is not None:
+            cells = [sorted(g._internal[r, c].keys()) if g._internal[r, c] else []
+                     for r in range(g.rows) for c in range(g.cols)]
+        rew = getattr(sim, "rewards", getattr(sim, "reward", None))
+        return [vit, cells, dict(rew) if isinstance(rew, dict) else rew]
+    return MgrTwin(make_mgr(mk, sim), probe)
+
+
 STACKS[0] = build_script
 STACKS[1] = build_corridor
 STACKS[2] = build_grid
 STACKS[3] = build_wrapped
 STACKS[4] = build_adapter
+STACKS[5] = build_example
 
 
 def impl(inp):
@@ -327,7 +355,14 @@ def adapter_desc(rng):
     return [ak, mk, sc]
 
 
-EXTRA_DESC = {3: wrapped_desc, 4: adapter_desc}
+def example_desc(rng):
+    from . import gen_C02
+    ex = rng.choice([1, 2, 3, 4, 5, 6, 7, 8, 9, 16])
+    mk = rng.choice(gen_C02.EXAMPLES[ex][2])
+    return [ex, mk, rng.getrandbits(20)]
+
+
+EXTRA_DESC = {3: wrapped_desc, 4: adapter_desc, 5: example_desc}
 
 
 def nontrivial(inp, out):
@@ -336,6 +371,9 @@ def nontrivial(inp, out):
 
 def classify(inp, out):
     kind = {0: "script", 1: "corridor", 2: "grid"}.get(inp[0], f"stack{inp[0]}")
+    if inp[0] == 5:
+        from . import gen_C02
+        return f"example-{gen_C02.EXAMPLES[inp[1][0]][0]}/{MGR.get(inp[1][1], 'x')}/prefix{min(len(inp[2]), 3)}"
     if inp[0] == 4:
         kind = "adapter-" + {0: "openspiel", 1: "gym"}[inp[1][0]]
         return f"{kind}/{MGR.get(inp[1][1], 'x')}/prefix{min(len(inp[2]), 3)}"
